@@ -46,7 +46,8 @@ def mdp_specs(draw, flavour="discounted", min_states=1, max_states=5, max_action
               schemes=("int", "str"), allow_explicit=True, normalise=True,
               multi_p0=True, zero_weights=True, reward_lo=None, reward_hi=None,
               p0_zero_entries=False, uniform_actions=False, gammas=None, max_out=3,
-              absorbing_kinds=("n", "n", "n", "n", "n", "n", "abs", "imp"), connect=True):
+              absorbing_kinds=("n", "n", "n", "n", "n", "n", "abs", "imp"), connect=True, extreme=False,
+              reward_values=None):
     sizes = list(range(min_states, max_states + 1))
     n = draw(st.sampled_from(sizes + sizes[len(sizes) // 2:]))
     m = draw(st.sampled_from(list(range(1, max_actions + 1)) + list(range(2, max_actions + 1))))
@@ -59,7 +60,7 @@ def mdp_specs(draw, flavour="discounted", min_states=1, max_states=5, max_action
         reward_lo = -3
     if reward_hi is None:
         reward_hi = 0 if flavour == "negative" else 3
-    rewards = st.integers(reward_lo, reward_hi)
+    rewards = st.integers(reward_lo, reward_hi) if reward_values is None else st.sampled_from(reward_values)
 
     kinds = [draw(st.sampled_from(absorbing_kinds)) for _ in range(n)]
     if proper:
@@ -127,6 +128,15 @@ def mdp_specs(draw, flavour="discounted", min_states=1, max_states=5, max_action
         "trans": trans, "absorbing": absorbing, "p0": p0,
         "explicit_states": None, "explicit_actions": None,
     }
+    if extreme and draw(st.integers(0, 2)) == 0:
+        # extreme ratios: some outcome becomes ~1e-9..1e-12 as likely as its siblings
+        s0 = draw(st.integers(0, n - 1))
+        outs = trans[s0][draw(st.integers(0, len(trans[s0]) - 1))][1]
+        pos = [o for o in outs if o[1] > 0]
+        if len(pos) >= 2 and not (proper and not absorbing[s0]):
+            big = pos[draw(st.integers(0, len(pos) - 1))]
+            big[1] = big[1] * 10 ** draw(st.sampled_from([9, 10, 12]))
+            spec["extreme"] = True
     if allow_explicit and draw(st.integers(0, 3)) == 0:
         spec["explicit_states"] = list(draw(st.permutations(list(range(n)))))
         spec["explicit_actions"] = list(draw(st.permutations(list(range(m)))))
